@@ -472,3 +472,25 @@ func insertDelta(d certs.PowerTableDiff, x certs.PowerTableDelta) certs.PowerTab
 	}
 	return out
 }
+
+// NextCert builds one honest certificate for instance on top of table cur,
+// finalising a generated chain that starts at base. It returns the certificate
+// and the table in force afterwards.
+func NextCert(t *rapid.T, label string, nn gpbft.NetworkName, instance uint64, cur gpbft.PowerEntries, base *gpbft.TipSet, maxDeltaOps int) (*certs.FinalityCertificate, gpbft.PowerEntries) {
+	next := Evolve(t, label+".ev", cur, maxDeltaOps)
+	n := rapid.IntRange(0, 3).Draw(t, label+".suffix")
+	ts := []*gpbft.TipSet{CloneTipSet(base)}
+	epoch := base.Epoch
+	for i := 0; i < n; i++ {
+		epoch += int64(rapid.IntRange(1, 3).Draw(t, label+".gap"))
+		ts = append(ts, &gpbft.TipSet{Epoch: epoch, Key: DetBytes(rapid.IntRange(1, 40).Draw(t, label+".kl"), "nc", instance, i), PowerTable: DetCid("ncpt", instance, i)})
+	}
+	c := &certs.FinalityCertificate{
+		GPBFTInstance:    instance,
+		ECChain:          &gpbft.ECChain{TipSets: ts},
+		SupplementalData: gpbft.SupplementalData{PowerTable: vref.TableCID(next)},
+		PowerTableDelta:  vref.MakeDiff(cur, next),
+	}
+	SignCert(nn, cur, c, SignerSet(t, label+".sig", cur, "minimal"))
+	return c, next
+}
